@@ -1,10 +1,15 @@
-use bevy::prelude::*;
+use bevy::{ecs::system::RunSystemOnce, prelude::*};
 use bevy_renet::renet::{ClientId, DefaultChannel, RenetServer};
 
 use crate::{full_sync::build_full_sync, proto::Message};
 
+use super::track::react_on_changed_components;
+
 pub(crate) fn send_initial_sync(client_id: ClientId, world: &mut World) {
     info!("Sending initial sync to client id {}", client_id);
+    // component changes that were detected but not sent yet predate the snapshot: send them now,
+    // so that they do not reach the new client after the newer values the snapshot carries
+    world.run_system_once(react_on_changed_components);
     // exclusive access to world while looping through all objects, this can be blocking/freezing for the server
     let mut initial_sync = match build_full_sync(world) {
         Ok(initial_sync) => initial_sync,
